@@ -279,7 +279,9 @@ def phase_gate(ck):
             st[d["kind"]] += 1
         else:
             st["diverged"] += 1
-        if observations(r):
+        # a script of the protocol the code implements that the code leaves at a definite point (not Go's map order, not
+        # the replayer's timing) is the code doing something the specification does not allow - if it does so again
+        if observations(r) or (byid[sid].get("fsh") and d is not None and d["kind"] in ("state", "position")):
             suspects[sid] = r
     ck.extra["gate_replay"] = stats
     ck.evaluations += sum(r["followed"] for r in res.values())
@@ -293,9 +295,6 @@ def phase_gate(ck):
             den = st["scripts"] - st["maporder"] - st["overrun"] - st["timerfirst"]
             rates[v] = st["followed"] / den if den else 0.0
     ck.extra["gate_follow_rate"] = {k: round(x, 3) for k, x in rates.items()}
-    if not rates or max(rates.values()) < 0.9:
-        ex = next((r["divergence"] for r in res.values() if r.get("divergence") and r["divergence"]["kind"] in ("position", "state")), None)
-        raise Infra("neither the repaired nor the old protocol of Pool is followed by the code (rates %s); e.g. %s" % (rates, ex))
     sample = next((r for r in res.values() if r["status"] == "followed" and not observations(r)), None)
     if sample:
         ck.sample({"direction": "S->C gates", "script": sample["id"], "steps": [{k: v for k, v in s.items() if k != "o"} for s in byid[sample["id"]]["steps"][:12]]})
@@ -313,9 +312,24 @@ def phase_gate(ck):
                               {"kind": "script", "script": s, "first_run": {k: v for k, v in r.items() if k != "events"}})
                 else:
                     unconfirmed += 1
+            d1, d2 = r.get("divergence"), again[sid].get("divergence")
+            if byid[sid].get("fsh") and d1 is not None and d1["kind"] in ("state", "position"):
+                if d2 is not None and d2.get("code") == d1.get("code") and d2["step"] == d1["step"]:
+                    confirmed += 1
+                    s = byid[sid]
+                    ck.report("C13:" + d1["code"],
+                              "gate replay of %s (behaviour of the implemented protocol, %d steps) leaves the specification at step %d (%s), "
+                              "twice: %s" % (sid, len(s["steps"]), d1["step"], d1["action"], d1["why"]),
+                              {"kind": "script", "script": s, "first_run": {k: v for k, v in r.items() if k != "events"}})
+                else:
+                    unconfirmed += 1
     ck.extra["gate_observations"] = {"confirmed_on_second_run": confirmed, "not_reproduced": unconfirmed}
     if unconfirmed:
         ck.notes.append("%d observation(s) of a gate replay did not reproduce on the second run and were not reported" % unconfirmed)
+    if not ck.violations and not ck.known_hit:
+        if not rates or max(rates.values()) < 0.9:
+            ex = next((r["divergence"] for r in res.values() if r.get("divergence") and r["divergence"]["kind"] in ("position", "state")), None)
+            raise Infra("neither the repaired nor the old protocol of Pool is followed by the code (rates %s); e.g. %s" % (rates, ex))
     # canary: corrupt one expected observation of a script that was followed
     base = next((byid[s] for s, r in res.items() if r["status"] == "followed" and r["attempts"] == 1 and s.startswith("cex")), None) or \
         next(byid[s] for s, r in res.items() if r["status"] == "followed")
@@ -339,8 +353,22 @@ def trace_key(rj):
     e = rj["event"]
     if e.get("k") == "Hang":
         return hang_key(e), "the driver's watchdog found goroutines that never returned: " + " | ".join(e.get("stacks", []))
-    # a caller inside its call after deadline + slack?
     seg, t = rj["segment"], e.get("t", 0)
+    # the pool's wait list differs from the registrations the callers made (len(waitList) is logged under the lock)
+    if "nreg" in e:
+        regd = set()
+        for x in seg[:rj["accepted"] + 1]:
+            if x.get("k") == "sub.reg":
+                regd.add(x["r"])
+            elif x.get("k") == "unsub.done":
+                regd.discard(x["r"])      # unsubscribe removes the caller's own registration, nothing else
+        if e["nreg"] != len(regd):
+            k = "C13:waitlist:entry-lost" if e["nreg"] < len(regd) else "C13:waitlist:entry-leaked"
+            return k, "the wait list holds %d entries at %s (t=%d ms) while %d caller(s) are registered and have not unsubscribed (%s)" % (
+                e["nreg"], e["k"], t, len(regd), ", ".join(sorted(regd)))
+    if e.get("k") == "ret" and e.get("res") == "err":
+        return "C13:wait-missed-head", "a caller returned an error although the specification has it woken by a head at or beyond its seqno: " + json.dumps(e)
+    # a caller inside its call after deadline + slack?
     calls = {}
     for x in seg[:rj["accepted"] + 1]:
         i = x.get("i")
@@ -579,6 +607,8 @@ def replay(ck, path):
     if r["kind"] == "script":
         res = run_gate(ck, [r["script"]], "replay")[r["script"]["id"]]
         obs = observations(res)
+        if res.get("divergence") and res["divergence"].get("code"):
+            obs.append(("C13:" + res["divergence"]["code"], res["divergence"]["why"]))
         print(json.dumps({k: v for k, v in res.items() if k != "events"}, indent=1))
         if any(k == key for k, _ in obs):
             print("VIOLATION property=C13 replay=%s" % path)
